@@ -141,6 +141,9 @@ type ReplayFile struct {
 	OrigDraws int      `json:"orig_draws"`
 	BySeed    bool     `json:"by_seed,omitempty"`
 	Race      bool     `json:"race,omitempty"`
+	// Depth is the tier depth the run was generated with (1 quick, 2
+	// thorough: some runs draw larger configurations).
+	Depth int `json:"depth,omitempty"`
 }
 
 func WriteReplay(path string, rf *ReplayFile) error {
